@@ -27,6 +27,9 @@ type proxy struct {
 	// onFlush may rewrite the request or answer directly.
 	onFlush func(in *spb.FlushRequest) (*spb.FlushRequest, *spb.FlushResponse)
 
+	// onFlushDone may rewrite the outcome of a Flush.
+	onFlushDone func(in *spb.FlushRequest, resp *spb.FlushResponse, err error) (*spb.FlushResponse, error)
+
 	// onErr may rewrite the status a Modify RPC ends with.
 	onErr func(error) error
 	// eofDelay: the server learns of a client's half-close this much later (a conformant
@@ -146,7 +149,11 @@ func (p *proxy) Flush(ctx context.Context, req *spb.FlushRequest) (*spb.FlushRes
 		}
 		req = nreq
 	}
-	return p.inner.Flush(ctx, req)
+	resp, err := p.inner.Flush(ctx, req)
+	if p.onFlushDone != nil {
+		return p.onFlushDone(req, resp, err)
+	}
+	return resp, err
 }
 
 // slowProxy is a conformant server that is slow: responses are delivered late and/or
@@ -425,6 +432,23 @@ var faults = []fault{
 		},
 		expect:  []string{"Flush of all entries in default NI by elected master", "Flush from client overriding election is honoured", "Flush to specific network instance is honoured"},
 		control: []string{"Flush from non-elected master returns error", "Flush without specifying network instance returns error", "Modify RPC connection"},
+	},
+	{
+		name: "omits-flush-error-details", what: "refuses a Flush with the right status code but without the FlushResponseError details that say why",
+		wrap: func(in *server.Server) spb.GRIBIServer {
+			p := &proxy{inner: in}
+			p.onFlushDone = func(_ *spb.FlushRequest, resp *spb.FlushResponse, err error) (*spb.FlushResponse, error) {
+				if err != nil {
+					if st, ok := status.FromError(err); ok {
+						return nil, status.New(st.Code(), st.Message()).Err()
+					}
+				}
+				return resp, err
+			}
+			return p
+		},
+		expect:  []string{"Flush without specifying network instance returns error"},
+		control: []string{"Flush of all entries in default NI by elected master", "Flush from client overriding election is honoured", "Modify RPC connection"},
 	},
 	{
 		name: "ignores-flush-of-a-named-instance", what: "answers a Flush that names one network instance with OK without removing anything (a Flush of all instances is honoured)",
